@@ -120,6 +120,9 @@ def gen_c01(rng, fs, i, cfg):
             # an open fails, possibly three or more times in a row: the creation may fail, it must
             # never report success with pixels missing
             op["fault"] = {"kind": "F4", "open": rng.randint(0, 4 + len(op["chunks"])), "width": rng.choice([1, 2, 3, 3, 4])}
+            if rng.random() < 0.4:
+                # ... or buffered data cannot be forced out after a chunk was written
+                op["fault"] = {"kind": "F10", "flush": rng.randint(0, max(0, len(op["chunks"]) - 1))}
         elif len(op["layout"]["names"]) >= 2 and rng.random() < 0.06 and op["form"] != "array":
             # the caller keeps ONE bin-table object, creates, edits it in place (drops the last
             # chromosome) and creates again
@@ -1044,13 +1047,30 @@ def gen_c11(rng, fs, i, cfg):
     if i > 0 and "made" in ctx and ctx.get("support") is not None and rng.random() < 0.12:
         # the path is rewritten with another matrix in the same process and balanced again:
         # anything remembered per URI (and per span) from the earlier runs is stale now
-        redo = rng.choice(["values", "values", "support", "layout"])
+        redo = rng.choice(["values", "values", "support", "layout", "boundaries", "boundaries"])
     if i == 0 or "made" not in ctx or redo:
         ctx["made"] = True
         lay = gen.gen_layout(rng, cfg.get("maxchroms", 3), cfg.get("maxbins", 7),
                              rng.choice(["fixed", "fixed", "variable", "fixed-exact", "mixed-one"]))
         if redo in ("values", "support"):
             lay = ctx["lay"]
+        if redo == "boundaries":
+            # the same number of bins, one bin moved from one chromosome to another: everything that
+            # depends on chromosome membership (cis/trans filters) changes, sizes and spans do not
+            import copy as _copy
+            lay = _copy.deepcopy(ctx["lay"])
+            donors = [c for c, e in enumerate(lay["edges"]) if len(e) > 2]
+            if donors and len(lay["edges"]) >= 2:
+                a = rng.choice(donors)
+                b = rng.choice([c for c in range(len(lay["edges"])) if c != a])
+                w = lay["edges"][a][-1] - lay["edges"][a][-2]
+                lay["edges"][a].pop()
+                lay["edges"][b].append(lay["edges"][b][-1] + max(1, w))
+                lay["kind"] = "variable"
+                redo = "values" if rng.random() < 0.7 else "support"
+            else:
+                lay = ctx["lay"]
+                redo = "values"
         if rng.random() < 0.25:
             # Ensembl/NCBI style names that look like numbers ("1", "2", "03"): text files naming them
             # (a blacklist BED) must still be read as names
